@@ -246,7 +246,7 @@ def composite_case(rng, idx, prop):
     return {"idx": idx, "mode": mode, "tr": tr, "mal": "ok", "opt": opt, "nodes": nodes,
             "id": rng.randint(0, 0xFFFF), "name": mk_name(rng, idx, rng.choice(["lower", "mixed"])),
             "target": "t%d.Redirect-Target.test." % idx, "qtype": rng.choice([1, 28]), "qclass": 1,
-            "flags": rng.choice([0x0100, 0x0000, 0x0110]), "settle": 700, "expected": None, "beh": None}
+            "flags": rng.choice([0x0100, 0x0000, 0x0110]), "settle": 400, "expected": None, "beh": None}
 
 
 # ------------------------------------------------------------------ running and judging
